@@ -22,6 +22,91 @@ def _calls(node):
 
 
 # ---------------------------------------------------------------------------------------------- R-PERUP
+def _perup_writer(fn, attr):
+    """('ok'|'bad'|'unknown', why): self.<attr> rebuilt with exactly one entry per pattern of self.usage_patterns"""
+    stores = [n for n in ast.walk(fn) if isinstance(n, ast.Assign) and isinstance(n.targets[0], ast.Subscript)
+              and norm(n.targets[0].value) == f"self.{attr}"]
+    inits = [n for n in ast.walk(fn) if isinstance(n, ast.Assign) and norm(n.targets[0]) == f"self.{attr}"]
+    if not inits:
+        return "bad", f"self.{attr} is no longer rebuilt from scratch (stale entries of patterns that left survive)"
+    # form 2: dict comprehension handed to ExplainableObjectDict
+    for i in inits:
+        dc = next((x for x in ast.walk(i.value) if isinstance(x, ast.DictComp)), None)
+        if dc is not None and not stores:
+            g = dc.generators[0]
+            if norm(g.iter) != "self.usage_patterns":
+                return "bad", f"entries are built for `{norm(g.iter)}`, not for every pattern of self.usage_patterns"
+            if g.ifs:
+                return "bad", "some usage patterns are filtered out"
+            if norm(dc.key) != norm(g.target):
+                return "bad", f"entries are keyed by `{norm(dc.key)}`, not by the pattern"
+            return "ok", ""
+    if len(stores) != 1:
+        return ("bad", "no entry is written") if not stores else ("unknown", f"{len(stores)} subscript stores")
+    st = stores[0]
+    loop = getattr(st, "_parent", None)
+    if not isinstance(loop, ast.For):
+        return "bad", "the entry is written conditionally or outside a loop over the usage patterns"
+    if norm(loop.iter) != "self.usage_patterns":
+        return "bad", f"the loop runs over `{norm(loop.iter)}`, not over every pattern of self.usage_patterns"
+    if not isinstance(loop.target, ast.Name) or norm(st.targets[0].slice) != loop.target.id:
+        return "bad", f"the entry is filed under `{norm(st.targets[0].slice)}`, not under the loop's pattern"
+    if any(isinstance(x, (ast.Continue, ast.Break)) for x in ast.walk(loop)):
+        return "bad", "the loop skips some usage patterns"
+    if inits[0].lineno > loop.lineno:
+        return "bad", "the dict is reset after it was filled"
+    v = loop.target.id
+    for c in _calls(st.value):
+        if isinstance(c.func, ast.Attribute) and norm(c.func.value) == "self" and c.func.attr.startswith("compute_") \
+                and v not in [norm(a) for a in c.args] + [norm(k.value) for k in c.keywords]:
+            return "bad", f"the entry of pattern `{v}` is computed for another pattern"
+    for sub in ast.walk(loop):
+        if isinstance(sub, ast.Subscript) and "per_usage_pattern" in norm(sub.value) and isinstance(sub.ctx, ast.Load) \
+                and norm(sub.slice) != v:
+            return "bad", f"the entry of pattern `{v}` reads another pattern's entry (`{norm(sub)}`)"
+    return "ok", ""
+
+
+def _shared_patterns(fn, rd, key, job):
+    """the key of `job.…_per_usage_pattern[key]` ranges over patterns that are both the job's and the network's"""
+    # binding loop / comprehension of `key`
+    binder = rd
+    it = None
+    filters = []
+    while binder is not None:
+        binder = getattr(binder, "_parent", None)
+        if isinstance(binder, ast.For) and norm(binder.target) == key:
+            it = binder.iter
+            break
+        if isinstance(binder, (ast.ListComp, ast.GeneratorExp, ast.DictComp)):
+            g = next((g for g in binder.generators if norm(g.target) == key), None)
+            if g is not None:
+                it, filters = g.iter, list(g.ifs)
+                break
+    if it is None:
+        return "unknown"
+    # resolve a local list to its defining comprehension
+    if isinstance(it, ast.Name):
+        d = [n for n in ast.walk(fn) if isinstance(n, ast.Assign) and norm(n.targets[0]) == it.id]
+        if len(d) == 1 and isinstance(d[0].value, (ast.ListComp, ast.GeneratorExp)):
+            g = d[0].value.generators[0]
+            it, filters = g.iter, filters + list(g.ifs)
+            key2 = norm(g.target)
+        else:
+            return "unknown"
+    else:
+        key2 = key
+    src = norm(it)
+    tests = [norm(f) for f in filters]
+    job_side = src == f"{job}.usage_patterns" or any(t == f"{key2} in {job}.usage_patterns" for t in tests)
+    net_side = src == "self.usage_patterns" or any(t == f"{key2} in self.usage_patterns" for t in tests)
+    if job_side and net_side:
+        return "ok"
+    if src in (f"{job}.usage_patterns", "self.usage_patterns"):
+        return "bad"
+    return "unknown"
+
+
 @rule("R-PERUP")
 def r_perup(E):
     pm = E.pm
@@ -35,33 +120,14 @@ def r_perup(E):
         fn = ms[m]
         attr = m[len("update_"):]
         res.instances += 1
-        init = fn.body[0] if fn.body else None
-        loop = next((s for s in fn.body if isinstance(s, ast.For)), None)
-        ok = isinstance(init, ast.Assign) and norm(init.targets[0]) == f"self.{attr}" and \
-            norm(init.value) == "ExplainableObjectDict()" and loop is not None and \
-            norm(loop.iter) == "self.usage_patterns" and isinstance(loop.target, ast.Name)
-        if ok:
-            v = loop.target.id
-            stores = [s for s in ast.walk(loop) if isinstance(s, ast.Assign) and isinstance(s.targets[0], ast.Subscript)
-                      and norm(s.targets[0].value) == f"self.{attr}"]
-            ok = len(stores) == 1 and norm(stores[0].targets[0].slice) == v and stores[0] in loop.body
-            if ok:
-                # the helper that computes the entry receives the same pattern
-                for c in _calls(stores[0].value):
-                    names = [norm(a) for a in c.args]
-                    if isinstance(c.func, ast.Attribute) and norm(c.func.value) == "self" and \
-                            c.func.attr.startswith("compute_") and v not in names:
-                        ok = False
-                for sub in ast.walk(loop):
-                    if isinstance(sub, ast.Subscript) and "per_usage_pattern" in norm(sub.value) and \
-                            isinstance(sub.ctx, ast.Load) and norm(sub.slice) != v:
-                        ok = False
-        if not ok:
+        verdict, why = _perup_writer(fn, attr)
+        if verdict == "bad":
             res.findings.append(Finding(
                 "R-PERUP", f"JobBase.{m} writer shape",
-                f"JobBase.{m} no longer (re)builds self.{attr} with exactly one entry per pattern of self.usage_patterns, "
-                f"keyed by that pattern: occurrences are lost, duplicated or filed under another pattern", rel, fn.lineno,
+                f"JobBase.{m}: {why}: occurrences are lost, duplicated or filed under another pattern", rel, fn.lineno,
                 f"JobBase.{m}"))
+        elif verdict == "unknown":
+            res.undecided.append(f"JobBase.{m}: writer shape not recognised ({why})")
         elif len(res.samples) < 3:
             res.samples.append({"writer": f"JobBase.{m}", "collection": "self.usage_patterns", "keyed_by": "loop variable"})
     # readers
@@ -99,14 +165,24 @@ def r_perup(E):
     # network: a job's entry is read only for patterns the job and the network share
     rel2, nf = pm.find_function(NW, "Network.update_energy_footprint")
     res.instances += 1
-    t = norm(nf)
-    if "for up in job.usage_patterns if up in self.usage_patterns" not in t or \
-            "job.hourly_data_transferred_per_usage_pattern[up]" not in t:
-        res.findings.append(Finding(
-            "R-PERUP", "Network.update_energy_footprint shared patterns",
-            "the network must read a job's per-pattern data only for the usage patterns that use both the job and "
-            "this network (a job can serve patterns on other networks): otherwise KeyError or traffic counted on the "
-            "wrong network", rel2, nf.lineno, "Network.update_energy_footprint"))
+    reads = [n for n in ast.walk(nf) if isinstance(n, ast.Subscript) and isinstance(n.value, ast.Attribute)
+             and n.value.attr == "hourly_data_transferred_per_usage_pattern" and isinstance(n.ctx, ast.Load)]
+    if not reads:
+        res.findings.append(Finding("R-PERUP", "Network.update_energy_footprint shared patterns",
+                                    "the network no longer reads the jobs' per-pattern data transferred", rel2, nf.lineno,
+                                    "Network.update_energy_footprint"))
+    for rd in reads:
+        key = norm(rd.slice)
+        job = norm(rd.value.value)
+        verdict = _shared_patterns(nf, rd, key, job)
+        if verdict == "bad":
+            res.findings.append(Finding(
+                "R-PERUP", "Network.update_energy_footprint shared patterns",
+                "the network must read a job's per-pattern data only for the usage patterns that use both the job and "
+                "this network (a job can serve patterns on other networks): otherwise KeyError or traffic counted on the "
+                "wrong network", rel2, rd.lineno, "Network.update_energy_footprint"))
+        elif verdict == "unknown":
+            res.undecided.append(f"Network.update_energy_footprint: cannot tell which patterns `{key}` ranges over")
     res.floor = 10
     return res
 
@@ -315,30 +391,53 @@ def r_local(E):
                         f"{owner}.update_{x}"))
     rel, fn = pm.find_function("core/usage/usage_pattern.py", "UsagePattern.update_utc_hourly_usage_journey_starts")
     res.instances += 1
-    t = norm(fn)
-    if "self.hourly_usage_journey_starts.convert_to_utc(local_timezone=self.country.timezone)" not in t and \
-            "self.hourly_usage_journey_starts.convert_to_utc(self.country.timezone)" not in t:
+    conv = [c for c in _calls(fn) if isinstance(c.func, ast.Attribute) and c.func.attr == "convert_to_utc"]
+    if not conv:
         res.findings.append(Finding("R-LOCAL", "UsagePattern.update_utc_hourly_usage_journey_starts conversion",
-                                    "the UTC series is no longer hourly_usage_journey_starts.convert_to_utc(<the pattern's "
-                                    "country time zone>)", rel, fn.lineno, fn.name))
+                                    "the UTC series is no longer produced by convert_to_utc", rel, fn.lineno, fn.name))
+    else:
+        c = conv[0]
+        arg = (c.args[0] if c.args else (c.keywords[0].value if c.keywords else None))
+        if norm(c.func.value) != "self.hourly_usage_journey_starts" or arg is None or norm(arg) != "self.country.timezone":
+            res.findings.append(Finding(
+                "R-LOCAL", "UsagePattern.update_utc_hourly_usage_journey_starts conversion",
+                f"the UTC series is `{norm(c)[:80]}` instead of this pattern's local series converted with this pattern's "
+                f"country time zone", rel, c.lineno, fn.name))
     for q in ("ModelingUpdate.compute_hourly_quantities_to_filter", "ModelingUpdate.filter_hourly_quantities_to_filter"):
         rel, fn = pm.find_function(MU, q)
         res.instances += 1
-        t = norm(fn)
-        if not (("tzinfo is None" in t or "index.tz is None" in t) and "country.timezone.value" in t):
+        naive_test = any(isinstance(n, ast.Compare) and isinstance(n.ops[0], ast.Is) and isinstance(n.left, ast.Attribute)
+                         and n.left.attr in ("tz", "tzinfo") for n in ast.walk(fn))
+        uses_zone = any(isinstance(n, ast.Attribute) and n.attr == "timezone" and isinstance(n.value, ast.Attribute)
+                        and n.value.attr == "country" for n in ast.walk(fn))
+        if not (naive_test and uses_zone):
             res.findings.append(Finding("R-LOCAL", f"{q} naive index", f"{q} no longer localises a naive (local-time) "
                                         f"index with the pattern's country time zone before comparing it with the "
                                         f"simulation date", rel, fn.lineno, q))
     rel, fn = pm.find_function("abstract_modeling_classes/explainable_objects.py", "ExplainableHourlyQuantities.convert_to_utc")
-    res.instances += 1
-    t = norm(fn)
-    for need, what in (("tz_localize(local_timezone.value", "localisation in the given zone"),
-                       ("tz_convert('UTC')", "conversion to UTC"), ("nonexistent='shift_forward'", "skipped hours kept"),
-                       (".groupby(duplicates_df.index).sum()", "duplicated hours summed, not dropped")):
+    calls = {c.func.attr: c for c in _calls(fn) if isinstance(c.func, ast.Attribute)}
+    checks = []
+    loc = calls.get("tz_localize")
+    checks.append(("localisation in the given zone", loc is not None and loc.args and "local_timezone" in norm(loc.args[0])))
+    cv = calls.get("tz_convert")
+    checks.append(("conversion to UTC", cv is not None and cv.args and isinstance(cv.args[0], ast.Constant)
+                   and str(cv.args[0].value).upper() == "UTC"))
+    checks.append(("hours skipped by daylight saving kept (nonexistent='shift_forward')",
+                   loc is not None and any(k.arg == "nonexistent" and isinstance(k.value, ast.Constant)
+                                           and k.value.value == "shift_forward" for k in loc.keywords)))
+    gb = calls.get("groupby")
+    summed = any(isinstance(c.func, ast.Attribute) and c.func.attr == "sum" and isinstance(c.func.value, ast.Call)
+                 and isinstance(c.func.value.func, ast.Attribute) and c.func.value.func.attr == "groupby" for c in _calls(fn))
+    checks.append(("hours duplicated by daylight saving summed, not dropped", gb is not None and summed))
+    dup = calls.get("duplicated")
+    checks.append(("every duplicated hour taken into the merge (keep=False)",
+                   dup is not None and any(k.arg == "keep" and isinstance(k.value, ast.Constant) and k.value.value is False
+                                           for k in dup.keywords)))
+    for what, ok in checks:
         res.instances += 1
-        if need not in t:
-            res.findings.append(Finding("R-LOCAL", f"convert_to_utc :: {what}", f"convert_to_utc lost: {what}", rel,
-                                        fn.lineno, fn.name))
+        if not ok:
+            res.findings.append(Finding("R-LOCAL", f"convert_to_utc :: {what.split(' (')[0]}", f"convert_to_utc lost: {what}",
+                                        rel, fn.lineno, fn.name))
     res.floor = 6
     return res
 
